@@ -448,3 +448,5 @@ def run(ctx) -> None:
                    f"every nesting path of depth <= {1 if quick else 2} that does not use match / except* x {len(FORM_NAMES)} import forms, "
                    "scanned in a child interpreter whose ast module lacks the classes added in Python 3.10-3.12")
     ctx.random("random-projects", MOD, "strategy", "check_case", 4000 if quick else 150000)
+    # coverage-guided arm over the same strategy and oracle (atheris; skipped when it is not installed)
+    ctx.fuzz("coverage-guided-projects", "strategy", "check_case", runs=400 if ctx.tier == "quick" else 20000, procs=4 if ctx.tier == "quick" else 12)
